@@ -18,7 +18,7 @@ from common import *  # noqa
 setup_repo_imports()
 
 from kernel.type import TVar, TFun, BoolType
-from kernel.term import Term, Var, Const, And, Or, Not, Implies, Eq, true, false
+from kernel.term import Term, Var, Const, Abs, And, Or, Not, Implies, Eq, true, false
 from kernel.thm import Thm
 from kernel import theory
 from logic import basic, logic
@@ -452,7 +452,7 @@ def uf_family(run, r, n):
         if extra:
             run.violation('property', '%s introduces hypotheses that no premise has: %s' % (rule, [sstr(h) for h in extra]),
                           dict(rule=rule, args=[sstr(a) for a in args], prevs=[sstr(p) for p in prevs], result=sstr(th)), key='C18:%s:hyps' % rule)
-        if rule == 'verit_bind':
+        if rule in ('verit_bind', 'verit_sko_ex', 'verit_sko_forall'):
             res = z3oracle.entails(list(th.hyps), th.prop)      # the premises offered to bind are valid sequents
         else:
             res = z3oracle.entails([p.prop for p in prevs], th.prop)
@@ -633,6 +633,18 @@ def uf_family(run, r, n):
             for Q in (Forall, Exists):
                 for goal in (Eq(Q(x_, phi), Q(y_, psi)), Eq(Q(x_, phi), Q(x_, psi)), Eq(Q(y_, phi), Q(y_, psi))):
                     offer('verit_bind', [goal, {x_.name: y_}], [prem], 'guessed')
+
+    # ---- skolemization: from  x = (SOME x. phi) |- phi <--> psi  to  (?x. phi) <--> psi  (and the dual with SOME x. ~phi for !);
+    #      only valid premises are offered, the conclusion must then be valid (choice is axiomatised in the oracle)
+    for _ in range(max(3, n // 6)):
+        for phi_of in (lambda t: P1(t), lambda t: R2(t, c0), lambda t: And(P1(t), ps[0]), lambda t: R2(t, t), lambda t: Eq(f1(t), c0)):
+            for rule, Q, mk in (('verit_sko_ex', Exists, lambda b: b), ('verit_sko_forall', Forall, lambda b: Not(b))):
+                sk = Const('Some', TFun(TFun(S, BoolType), S))(Abs('x', S, mk(phi_of(x_)).abstract_over(x_)))
+                for psi in (phi_of(sk), phi_of(x_), phi_of(c0), Not(phi_of(sk)), true):
+                    prem = Thm(Eq(phi_of(x_), psi), Eq(x_, sk))
+                    if z3oracle.entails([Eq(x_, sk)], Eq(phi_of(x_), psi)) is not True:
+                        continue
+                    offer(rule, [Eq(Q(x_, phi_of(x_)), psi), {x_.name: sk}], [prem], 'guessed')
 
     # ---- shape bank: every boolean simplification rule is offered every left side of the bank with every right side built
     #      from the same sub-formulas (the rule decides, Z3 judges what was accepted)
